@@ -1062,3 +1062,24 @@ Lemma subst_example :
   /\ dec_summary w_lz = Some (true, 34%Z, true)
   /\ dec_summary w_lz_subst = Some (false, 34%Z, false).
 Proof. repeat split; vm_compute; reflexivity. Qed.
+
+(* D8: a frame with a wrong BeginString (likewise: BodyLength not second, a field without "=")
+   makes decode report the WHOLE buffer as consumed: a good frame received in the same read is
+   discarded with it.  w_badbs = 8=FIX.4.2|9=5|35=0|10=161| *)
+Definition w_badbs : str :=
+  [56; 61; 70; 73; 88; 46; 52; 46; 50; 1; 57; 61; 53; 1; 51; 53; 61; 48; 1; 49; 48; 61; 49; 54; 49; 1].
+
+Lemma drop_buffer_refuted :
+  dec_summary (w_badbs ++ w_good) = Some (false, zlen (w_badbs ++ w_good), false)
+  /\ reader_run TBL BS [] [w_badbs ++ w_good] = ([], [], [0])
+  /\ length (delivered (reader_run TBL BS [] [w_badbs; w_good])) = 1%nat.
+Proof. repeat split; vm_compute; reflexivity. Qed.
+
+(* D8: a fragment that starts with the marker, has fewer than three fields and is followed by
+   another marker is never consumed (consumed = 0 for ever).  w_frag = 8=FIX.4 *)
+Definition w_frag : str := [56; 61; 70; 73; 88; 46; 52].
+
+Lemma stall_fragment_refuted :
+  dec_summary (w_frag ++ w_good) = Some (false, 0%Z, false)
+  /\ run2 w_frag = (w_frag ++ w_good ++ w_good, [], [0; 0]).
+Proof. split; vm_compute; reflexivity. Qed.
